@@ -1,5 +1,7 @@
 import HapModel.Drv.Basic
 import HapModel.Model.OutputVcf
+import HapModel.Drv.C01
+import HapModel.Model.Convert
 namespace Drv
 open Lean OutputVcf
 
@@ -25,5 +27,17 @@ def hOutputVcf (j : Json) : R Json := do
     hapOut ref vars blocks chroms 0)
   pure <| jObj [("haps", jArr (outs.map (fun o => jArr (o.map (fun (g, s) =>
     jArr [jNat g, jNat s.sample, jNat s.strand, jNat s.pop])))))]
+
+/-- {"op":"convertHap","hap":[[pop,chrom,end,cm]…],"chrom":c,"popSamples":[[sample idx…] for label 0,1,2…],
+     "choices":[…],"strands":[…]} → the blocks `_convert_haplotype` returns: ends and per block [sample, strand, pop] -/
+def hConvertHap (j : Json) : R Json := do
+  let hap := (← listF seg j "hap").toArray
+  let c ← natF j "chrom"
+  let ps := (← listF (listOf nat) j "popSamples").toArray
+  let choices ← listF nat j "choices"
+  let strands ← listF nat j "strands"
+  let b := Convert.convert hap c (fun p => ps.getD p []) choices strands
+  pure <| jObj [("ends", jArr (b.ends.map jNat)),
+                ("srcs", jArr (b.srcs.map (fun s => jArr [jNat s.sample, jNat s.strand, jNat s.pop])))]
 
 end Drv
